@@ -29,7 +29,8 @@ theorem identities_order_independent (l₁ l₂ : List (Bytes × Walk.Entry)) (h
 
 /-- JWT fields: the attribute list does not depend on the order in which the JSON object's members are enumerated -/
 theorem jwt_order_independent (m₁ m₂ : List (Bytes × Jwt.JVal)) (hp : m₁.Perm m₂) (hn : (m₁.map (·.1)).Nodup) :
-    Jwt.attributesOf m₁ = Jwt.attributesOf m₂ := C18.order_independent m₁ m₂ hp hn
+    Jwt.headerAttributes m₁ = Jwt.headerAttributes m₂ ∧ Jwt.payloadAttributes m₁ = Jwt.payloadAttributes m₂ :=
+  ⟨C18.order_independent _ m₁ m₂ hp hn, C18.order_independent _ m₁ m₂ hp hn⟩
 
 /-- no reachable `range` over a JWT map remains -/
 theorem jwt_no_map_range : Gen.jwtRangesOverMap = false := by decide
